@@ -583,7 +583,7 @@ def standard_check(mod, tier, seed, replay=None):
             reported.add(i)
         exit_code = 1
     only_dis = [i for i in sorted(set(disagree)) if i not in set(violate) and not is_known(i)]
-    if only_dis and not bad:
+    if only_dis and not [i for i in bad if not is_known(i)]:
         i = only_dis[0]
         nviol += len(only_dis)
         path = write_replay(pid, {"property": pid, "kind": "correspondence-broken",
